@@ -199,7 +199,9 @@ def run_scenario(sc, chooser=None, seed=0, max_steps=60000):
         okb = [tuple(b) for b, ok in st["attempts"] if ok]
         if len(set(v for b in okb for v in b)) != len([v for b in okb for v in b]):
             viol.append("C16: a value was accepted twice by the slow queue: %s" % (okb,))
-    if not st["stop_returned"]:
+    # a run cut at the step bound is an unfair schedule (e.g. two blocked producers waking each other, the open C20 finding,
+    # while a priority scheduler never runs the worker): it says nothing about termination
+    if not st["stop_returned"] and outcome != "bound":
         viol.append("C16: stop() did not return (failure pattern %s, %d attempts, %d markers)" % (sc["fails"], len(st["attempts"]), st["markers"]))
     for vt in sched.vts:
         if vt.exc is not None and not isinstance(vt.exc, SinkFailure):
